@@ -270,7 +270,48 @@ def directed_personas(year, seed, n):
             p = scen.plain_persona(year, 'S', 60000.0 + (lim + d - l14), key=f'dirusetax:{seed}:{k}:{d}', nc=True)
             p.ncv.update({'no_consumer_use_tax': False, 'full_records': False})
             out.append(('F8u', p))
+    # the estimated-tax penalty line (Form 1040 line 38): the amount owed placed one dollar above and one dollar below 10 % of
+    # "the tax shown on the return" (total tax less the refundable credits, which in 2021 include the recovery rebate credit)
+    for k in range(n):
+        ov = {}
+        if year == 2021:
+            ov = {'1040_recovery_rebate_credit_wkst.ssn_before_due_date': 'yes', '1040_recovery_rebate_credit_wkst.eip_3_amount': '0', '1040_recovery_rebate_credit_wkst.dependents_ssn_before_due_date': '0'}
+        mk = lambda wh=None: scen.plain_persona(year, 'MFJ', [round(92000.0 + 500 * k, 2), 63000.0], key=f'dirpen:{seed}:{k}', overrides=ov, withhold=wh if wh is not None else 0.15)
+        p0 = mk()
+        p0.tax_penalty = 77.0
+        o0 = scen.solve_persona(p0)
+        if o0.exc is not None or o0.ret is not True:
+            continue
+        t0 = scen.typed_solution(o0)
+        shown = t0.get('1040.24', 0.0) - sum(t0.get(f'1040.{l}', 0.0) for l in ('27', '27a', '28', '29', '30'))
+        bal = t0.get('1040.24', 0.0) - t0.get('1040.33', 0.0)
+        wh0 = sum(d['box_2'] for d in p0.w2)
+        for d in (1.0, -1.0):
+            want37 = max(1000.0, 0.1 * shown) + d
+            new_wh = wh0 - (want37 - bal)
+            if new_wh < 0:
+                continue
+            p = mk()
+            p.tax_penalty = 77.0
+            p.w2[0]['box_2'] = round(p.w2[0]['box_2'] + (new_wh - wh0), 2)
+            p.penalty_probe = True
+            out.append(('F0p', p))
     return out
+
+
+def directed_penalty(res, year, p, sol, label, rp):
+    """Form 1040 instructions, line 38: you may owe the penalty if line 37 is at least $1,000 and more than 10 % of the tax shown
+    on the return (line 24 less lines 27/27a, 28, 29 and - 2021 - 30).  The persona's penalty is a known amount."""
+    if not getattr(p, 'penalty_probe', False) or '1040.37' not in sol or '1040.24' not in sol:
+        return
+    shown = sol['1040.24'] - sum(sol.get(f'1040.{l}', 0.0) for l in ('27', '27a', '28', '29', '30'))
+    owes = sol['1040.37'] >= 1000.0 and sol['1040.37'] > 0.1 * shown
+    exp = p.tax_penalty if owes else 0.0
+    res.evaluations += 1
+    res.count('rule_instances_transcribed')
+    res.distinct.add(f'{year}|1040.38|transcribed-directed|{owes}')
+    if abs(sol.get('1040.38', 0.0) - exp) > 0.005:
+        res.violation(f'C02|{year}|1040.38|transcribed', f'{label}: line 37 = {sol["1040.37"]}, tax shown on the return = {shown:.2f} (line 24 {sol["1040.24"]} less refundable credits): the penalty line should carry {exp} but is {sol.get("1040.38", 0.0)}', rp)
 
 
 def run_shard(spec, tier, seed):
@@ -316,6 +357,7 @@ def run_shard(spec, tier, seed):
             except Exception as e:  # harness-side problem: count, never a verdict
                 res.count('full_evaluation_failed')
             directed_ira(res, year, p, sol, f'{year} {fam} {p.key}', realwork.replay_of(p, 'base', spec))
+            directed_penalty(res, year, p, sol, f'{year} {fam} {p.key}', realwork.replay_of(p, 'base', spec))
             if len(res.samples) < 1:
                 res.sample({'persona': p.describe(), 'lines_in_solution': len(sol), 'rule_instances_so_far': res.evaluations})
     return res
